@@ -75,9 +75,33 @@ impl Prop for C18Prop {
     }
     fn streams(&self, tier: Tier) -> Vec<Stream> {
         let q = tier == Tier::Quick;
-        vec![Stream::random("batch", if q { 12 } else { 150 }, 400)]
+        vec![
+            Stream::random("batch", if q { 12 } else { 150 }, 400),
+            // many large records written to stdout by many threads (torn-record races)
+            Stream::random("stdoutrace", if q { 2 } else { 20 }, 64),
+        ]
     }
-    fn generate(&self, _stream: &str, t: &mut Tape) -> Option<Case> {
+    fn generate(&self, stream: &str, t: &mut Tape) -> Option<Case> {
+        if stream == "stdoutrace" {
+            let cfg = Cfg { wrap_column: 120, ..Cfg::gen_unsaturated(t) };
+            let all = crate::gen::seeds::texts();
+            let n = 60 + t.below(60);
+            let mut files = vec![];
+            for i in 0..n {
+                let unit = &all[t.below(all.len() as u32) as usize].1;
+                let reps = (20_000 / unit.len().max(20)).max(2) * (1 + t.below(3) as usize);
+                let mut text = String::new();
+                for _ in 0..reps {
+                    text.push_str(unit);
+                    text.push_str("\n\n");
+                }
+                files.push(FileSpec { name: format!("r{i:03}.pas"), text, enc: "utf8".into(), kind: "good".into() });
+            }
+            let scn = Scn { files, threads: *t.pick(&[16, 8, 32, 4]), jitter: format!("j{}", t.below(1000)), mode: "stdout".into(), reverse_order: t.chance(1, 2) };
+            let mut c = Case::text("stdoutrace", String::new(), cfg);
+            c.extra = serde_json::to_value(scn).unwrap();
+            return Some(c);
+        }
         let cfg = Cfg::gen_unsaturated(t);
         let all = crate::gen::seeds::texts();
         let many = t.chance(1, 4);
